@@ -113,5 +113,13 @@ func vh15Corpus() [][]vhsrvReq {
 		{v, at, w(0, 1, "d1"), {T: "Tunlinkat", N: []uint64{1, 0}, S: vhsrvH("f1"), FaultAns: pan}, {T: "Tmkdir", N: []uint64{1, 0o755, 0}, S: vhsrvH("d2")},
 			{T: "Tlcreate", N: []uint64{1, 2, 0o644, 0}, S: vhsrvH("f3"), FaultAns: pan}, w(0, 2, "d1"), {T: "Tmkdir", N: []uint64{2, 0o755, 0}, S: vhsrvH("d3")},
 			{T: "Trenameat", N: []uint64{2, 0}, S: vhsrvH("f1", "f2"), FaultAns: pan}, {T: "Trenameat", N: []uint64{2, 0}, S: vhsrvH("f1", "f2")}, {T: "Tsetattr", N: []uint64{2, 1}}},
+		// Tclunk of a fid with a pending xattr create: SetXattr / RemoveXattr fails or panics, or the Close that follows
+		// fails too -- "Tclunk still unbinds": the fid is gone afterwards (EBADF), its File closed
+		{v, at, w(0, 1, "f1"), {T: "Txattrcreate", N: []uint64{1, 3, 0}, S: vhsrvH("user.a")}, {T: "Twrite", N: []uint64{1, 0, 3}},
+			{T: "Tclunk", N: []uint64{1}, FaultAns: &vhsrvAns{Err: []vhsrvLeaf{{"L", 28}}}, FaultMeth: vhsrvMSetXattr + 1}, {T: "Tgetattr", N: []uint64{1, 1}}, {T: "Tclunk", N: []uint64{1}},
+			w(0, 1, "f2"), {T: "Txattrcreate", N: []uint64{1, 0, 2}, S: vhsrvH("user.b")},
+			{T: "Tclunk", N: []uint64{1}, FaultAns: &vhsrvAns{Err: []vhsrvLeaf{{"OP", 0}, {"S", 13}}}, FaultMeth: vhsrvMRemoveXattr + 1}, {T: "Tgetattr", N: []uint64{1, 1}},
+			w(0, 1, "f3"), {T: "Txattrcreate", N: []uint64{1, 0, 0}, S: vhsrvH("user.c")}, {T: "Tclunk", N: []uint64{1}, FaultAns: pan, FaultMeth: vhsrvMSetXattr + 1},
+			{T: "Tclunk", N: []uint64{1}}, {T: "Tclunk", N: []uint64{0}}},
 	}
 }
